@@ -555,9 +555,80 @@ static std::string xvself(const Case& cs, Cur& cu)
   FV<R> x; loadV(x, R, cu); return vself(x, k);
 }
 
+// ---------------------------------------------------------------- xr_* / xw_*: every in-place operation with EVERY 1x1 / size-1 representation
+// as the receiver and as the argument: owning (FieldMatrix<K,1,1>, DynamicMatrix(1,1), FieldVector<K,1>, DynamicVector(1)) and
+// views (ScalarMatrixView / ScalarVectorView; "SS" = a second view of the SAME scalar as the receiver).  The wrapped scalar is observed.
+template<class A, class B> static std::string recvMat(const std::string& op, A& a, B& b, const K& k, const K& sa, const K& sb)
+{
+  // sa / sb: the scalars behind a / b (read after the call through references held by the caller)
+  if (op == "xr_leftmultiply") a.leftmultiply(b);
+  else if (op == "xr_rightmultiply") a.rightmultiply(b);
+  else if (op == "xr_madd") a += b;
+  else if (op == "xr_msub") a -= b;
+  else if (op == "xr_mscale") a *= k;
+  else if (op == "xr_mdiv") a /= k;
+  else if (op == "xr_maxpy") a.axpy(k, b);
+  else if (op == "xr_meq") { bool e = (a == b); return obs(b01(e), show(a), show(b)); }
+  else if (op == "xr_mneg") { auto z = -a; return obs(show(z), show(a), show(b)); }
+  else throw std::runtime_error("xr op");
+  return obs(show(a), show(a), show(b));
+}
+template<class A> static std::string recvMatB(const Case& cs, A& a, K& sa, Cur& cu, const K& k)
+{
+  K sb = cu.next();
+  if (cs.rep2 == "SS") { auto b = Impl::asMatrix(sa); return recvMat(cs.op, a, b, k, sa, sa); }           // second view of the same scalar
+  if (cs.rep2 == "SV") { auto b = Impl::asMatrix(sb); return recvMat(cs.op, a, b, k, sa, sb); }
+  if (cs.rep2 == "SC") { const K cb = sb; auto b = Impl::asMatrix(cb); return recvMat(cs.op, a, b, k, sa, cb); }   // view of a const scalar
+  if (cs.rep2 == "DM") { DM b(1, 1, sb); return recvMat(cs.op, a, b, k, sa, sb); }
+  FM<1, 1> b; b[0][0] = sb; return recvMat(cs.op, a, b, k, sa, sb);
+}
+template<class A, class B> static std::string recvVec(const std::string& op, A& a, B& b, const K& k)
+{
+  if (op == "xw_vadd") a += b;
+  else if (op == "xw_vsub") a -= b;
+  else if (op == "xw_vaxpy") a.axpy(k, b);
+  else if (op == "xw_vadds") a += k;
+  else if (op == "xw_vsubs") a -= k;
+  else if (op == "xw_vscale") a *= k;
+  else if (op == "xw_vdiv") a /= k;
+  else if (op == "xw_veq") { bool e = (a == b); return obs(b01(e), show(a), show(b)); }
+  else if (op == "xw_vdotT") { K d = a * b; return obs(show(d), show(a), show(b)); }
+  else if (op == "xw_vdot") { K d = a.dot(b); return obs(show(d), show(a), show(b)); }
+  else if (op == "xw_vplus") { auto z = a + b; return obs(show(z), show(a), show(b)); }
+  else if (op == "xw_vminus") { auto z = a - b; return obs(show(z), show(a), show(b)); }
+  else if (op == "xw_vneg") { auto z = -a; return obs(show(z), show(a), show(b)); }
+  else throw std::runtime_error("xw op");
+  return obs(show(a), show(a), show(b));
+}
+template<class A> static std::string recvVecB(const Case& cs, A& a, K& sa, Cur& cu, const K& k)
+{
+  K sb = cu.next();
+  if (cs.rep2 == "SS") { auto b = Impl::asVector(sa); return recvVec(cs.op, a, b, k); }
+  if (cs.rep2 == "SW") { auto b = Impl::asVector(sb); return recvVec(cs.op, a, b, k); }
+  if (cs.rep2 == "SC") { const K cb = sb; auto b = Impl::asVector(cb); return recvVec(cs.op, a, b, k); }
+  if (cs.rep2 == "DV") { DV b(1, sb); return recvVec(cs.op, a, b, k); }
+  FV<1> b(sb); return recvVec(cs.op, a, b, k);
+}
+static std::string xrecv(const Case& cs, Cur& cu)
+{
+  if constexpr (R == 1) {
+    K k = cu.next(); K sa = cu.next();
+    if (cs.op.rfind("xr_", 0) == 0) {
+      if (cs.rep == "SV") { auto a = Impl::asMatrix(sa); return recvMatB(cs, a, sa, cu, k); }
+      if (cs.rep == "DM") { DM a(1, 1, sa); return recvMatB(cs, a, sa, cu, k); }
+      FM<1, 1> a; a[0][0] = sa; return recvMatB(cs, a, sa, cu, k);
+    }
+    if (cs.rep == "SW") { auto a = Impl::asVector(sa); return recvVecB(cs, a, sa, cu, k); }
+    if (cs.rep == "DV") { DV a(1, sa); return recvVecB(cs, a, sa, cu, k); }
+    FV<1> a(sa); return recvVecB(cs, a, sa, cu, k);
+  }
+  throw std::runtime_error("xr/xw need R == 1");
+}
+
 static std::string runExtra(const Case& cs, Cur& cu)
 {
   const std::string& op = cs.op;
+  if (op.rfind("xr_", 0) == 0 || op.rfind("xw_", 0) == 0) return xrecv(cs, cu);
   if (op == "xvself") return xvself(cs, cu);
   if (op == "xselfleft" || op == "xselfright") return xselfmul(cs, cu);
   if (op == "xfill") return xfill(cs, cu);
